@@ -528,6 +528,7 @@ fn cmd_xdec(args: &[String]) {
         tag_chunk: "C02",
         tag_single: "C01",
         few_caps: arg(args, "--fewcaps").unwrap_or("0") == "1",
+        mixed: arg(args, "--mixed").unwrap_or("0") == "1",
     };
     let t = Instant::now();
     println!("{} syms {} k {}", cfg.label(), cfg.syms.len(), k);
